@@ -57,11 +57,11 @@ package analyzer
 //@   loop 1 invariant result != nil && fresh(result) && fresh(result.Differences) && fresh(balances) && balances != result.Differences && rninf(tx.Postings, len(tx.Postings)) == 0
 //@   loop 1 invariant forall c string :: balances[c] == rresid(tx.Postings, len(tx.Postings), c)
 //@   loop 1 invariant forall c string :: !has(balances, c) ==> rresid(tx.Postings, len(tx.Postings), c) == 0.0
-//@   loop 1 invariant forall c string :: iterseen1[c] ==> has(balances, c)
-//@   loop 1 invariant forall c string :: has(result.Differences, c) <==> (iterseen1[c] && balances[c] != 0.0)
+//@   loop 1 invariant forall c string :: iterseen[c] ==> has(balances, c)
+//@   loop 1 invariant forall c string :: has(result.Differences, c) <==> (iterseen[c] && balances[c] != 0.0)
 //@   loop 1 invariant forall c string :: has(result.Differences, c) ==> result.Differences[c] == abs(balances[c])
-//@   loop 1 invariant !result.Balanced ==> (exists c string :: iterseen1[c] && balances[c] != 0.0)
-//@   loop 1 invariant forall c string :: iterseen1[c] && balances[c] != 0.0 ==> !result.Balanced
+//@   loop 1 invariant !result.Balanced ==> (exists c string :: iterseen[c] && balances[c] != 0.0)
+//@   loop 1 invariant forall c string :: iterseen[c] && balances[c] != 0.0 ==> !result.Balanced
 
 //@ specdef pcontrib(ps []ast.Posting, k int, a string, c string) real := ite(ps[k].Amount != nil && ps[k].Account.Name == a && ps[k].Amount.Commodity.Symbol == c, ps[k].Amount.Quantity, 0.0)
 //@ specdef psum(ps []ast.Posting, j int, a string, c string) real := ite(j <= 0, 0.0, psum(ps, j - 1, a, c) + pcontrib(ps, j - 1, a, c))
@@ -88,7 +88,7 @@ package analyzer
 //@   ensures [exact_true] result ==> predefinedAccountTypes[topOf(accountName)] || declared[accountName] || (exists d string :: has(declared, d) && hasprefix(accountName, concat(d, ":")))
 //@   ensures [exact_false] !result ==> !predefinedAccountTypes[topOf(accountName)] && !declared[accountName] && (forall d string :: has(declared, d) ==> !hasprefix(accountName, concat(d, ":")))
 //@   loop 1 invariant !predefinedAccountTypes[topOf(accountName)] && !declared[accountName]
-//@   loop 1 invariant forall d string :: iterseen1[d] ==> has(declared, d) && !hasprefix(accountName, concat(d, ":"))
+//@   loop 1 invariant forall d string :: iterseen[d] ==> has(declared, d) && !hasprefix(accountName, concat(d, ":"))
 
 //@ func (*Analyzer).createBalanceDiagnostic
 //@   props C02
